@@ -108,6 +108,30 @@ def build_gtld_updater(ctx):
     return exe
 
 
+def suite_traces(ctx):
+    """The repository's own test suite as a trace source: `go test -tags verif ./...` on /repo's working tree with a recorder
+    overlaid into package lint (harness/suite/recorder.go.txt, behind the guarded hook verifObserve; nothing is written to /repo).
+    Returns the directory of recorded executions (one ndjson per test process); sets VERIF_SUITE_DIR for `drive suite`."""
+    d = ctx.path('suitetrace')
+    if os.path.isdir(d) and os.listdir(d):
+        return d
+    os.makedirs(d, exist_ok=True)
+    ov = ctx.path('suite.overlay.json')
+    json.dump({'Replace': {os.path.join(REPO, 'v3', 'lint', 'verif_recorder.go'): os.path.join(VERIF, 'harness', 'suite', 'recorder.go.txt')}}, open(ov, 'w'))
+    env = dict(GOENV)
+    env['VERIF_SUITE_TRACE'] = d
+    rc, out = sh(['go', 'test', '-tags', 'verif', '-overlay', ov, '-vet=off', '-count=1', './...'], cwd=os.path.join(REPO, 'v3'), timeout=2400, env=env)
+    n = sum(1 for f in os.listdir(d) for _ in open(os.path.join(d, f)))
+    if n == 0:
+        raise Inconclusive('the repository test suite recorded no execution (does it build with -tags verif?):\n' + out[-2000:])
+    failed = [l for l in out.splitlines() if l.startswith('FAIL') or l.startswith('--- FAIL')]
+    if failed:
+        ctx.notes.append('repository suite under the recorder: %s' % '; '.join(failed[:4]))
+    GOENV['VERIF_SUITE_DIR'] = d
+    ctx.cov_extra = getattr(ctx, 'cov_extra', {})
+    return d
+
+
 def extract(ctx):
     """Static facts about /repo's working tree (go/packages + SSA); cached per check run."""
     exe = os.path.join(OUT, 'bin', 'extract')
